@@ -13,6 +13,7 @@ RULE = ("each case runs a structure (repository proteins incl. 3SGB with its ins
         "(structure digest, relabelling)."
         " 20 % of the cases select one chain with -c in both runs (by its old and its new name).")
 RULE = RULE + ' Round 8: with identical records the rows of the determinant table and of the summary come in the same order (by atom position) before and after relabelling.'
+RULE = RULE + ' Rounds 10-12: order-preserving renumberings that close or open gaps; ligands split over two residue numbers; clusters with coupled groups shifted into four-column numbers.'
 ASSUMPTIONS = ["chain maps are order-preserving (the statement's quantifier), so the internal atom sort keeps its order"]
 TIMEOUT = {"quick": 1800, "thorough": 10800}
 KINDS = ("chain-rename", "shift", "icode-renumber")
